@@ -87,6 +87,8 @@ def run(chk: Check) -> None:
     if n < 25:
         raise AnalysisError(f"only {n} visit methods found in the stub printers")
     run_pending_decorators_cleared(chk, ix)
+    run_class_state_is_a_stack(chk, ix)
+    run_word_operator_spacing(chk, ix)
 
 
 def run_pending_decorators_cleared(chk: Check, ix) -> None:
@@ -117,3 +119,74 @@ def run_pending_decorators_cleared(chk: Check, ix) -> None:
         r3.ok(key, f.loc())
     else:
         r3.violation(key, f.loc(), "a path reaches the end of visit_func_def without clear_decorators()")
+
+
+def run_class_state_is_a_stack(chk: Check, ix) -> None:
+    """R19.4: what stubgen knows about the class it is in is restored, not reset, when a nested class ends."""
+    r4 = chk.rule("R19.4", "ASTStubGenerator.visit_class_def sets per-class state on entry (method_names, processing_enum, processing_dataclass, dataclass_field_specifier) and classes nest, so after the body has been visited (`super().visit_class_def(o)`) each of these attributes gets back the value it had on entry (an assignment from something saved before), not a constant: a constant reset at the end of a *nested* class switches the enclosing dataclass / enum / method-name handling off for the rest of the outer body (fields lose their defaults, a generated __init__ is emitted, enum members become annotations, `meth: int` next to `def meth`)", floor=3)
+    f = ix.func("mypy.stubgen.ASTStubGenerator.visit_class_def")
+    body = f.node.body
+    idx = next((i for i, s in enumerate(body) if any(isinstance(c, ast.Call) and norm(c.func) == "super().visit_class_def" for c in ast.walk(s))), None)
+    if idx is None:
+        raise AnalysisError("ASTStubGenerator.visit_class_def: the `super().visit_class_def(o)` call was not found at the top level of the method")
+
+    def self_targets(stmts):
+        out = []
+        for s in stmts:
+            for a in ast.walk(s):
+                if isinstance(a, ast.Assign):
+                    for t in a.targets:
+                        elts = t.elts if isinstance(t, ast.Tuple) else [t]
+                        vals = a.value.elts if isinstance(t, ast.Tuple) and isinstance(a.value, ast.Tuple) and len(a.value.elts) == len(t.elts) else [a.value] * len(elts)
+                        for e, v in zip(elts, vals):
+                            if isinstance(e, ast.Attribute) and norm(e.value) == "self":
+                                out.append((e.attr, v, a))
+        return out
+    output_state = {"_state", "_output"}
+    entry = {a for a, v, _ in self_targets(body[:idx]) if a not in output_state}
+    # also flags that helper methods called on entry set (get_class_decorators sets processing_dataclass)
+    if len(entry) < 3:
+        raise AnalysisError(f"visit_class_def: per-class attributes set on entry: {sorted(entry)}")
+    after = self_targets(body[idx + 1:])
+    for attr in sorted(entry):
+        rs = [(v, a) for a_, v, a in after if a_ == attr]
+        key = f"visit_class_def: self.{attr} gets back the enclosing class's value at the end"
+        if not rs:
+            r4.violation(key, f.loc(), f"self.{attr} is set on entry and never restored after the body: the value of the nested class leaks into the rest of the enclosing class")
+            continue
+        v, a = rs[-1]
+        is_const = isinstance(v, ast.Constant) or (isinstance(v, (ast.Tuple, ast.List, ast.Set, ast.Dict)) and not getattr(v, "elts", getattr(v, "keys", []))) or (isinstance(v, ast.Call) and not v.args and norm(v.func) in ("set", "list", "dict", "tuple"))
+        if is_const:
+            r4.violation(key, f.loc(a), f"after the class body `self.{attr} = {norm(v)}` resets the attribute to a constant: when the class that just ended was nested, the enclosing class (a dataclass, an enum, a class with methods) loses its setting for the rest of its body")
+        else:
+            r4.ok(key, f.loc(a))
+
+
+def run_word_operator_spacing(chk: Check, ix) -> None:
+    """R19.5: a unary operator is not glued to its operand when it is a word."""
+    r5 = chk.rule("R19.5", "stubgen prints unary expressions (defaults, alias targets) by interpolating the operator in front of the operand; Python's unary operators include the word `not`, so an f-string that places `{<node>.op}` directly in front of the next interpolation (`f\"{o.op}{...}\"`) produces `not1` / `notx`, an undefined name in the stub: the interpolated operator is a local that was normalised (`'not ' if op == 'not' else op`) or the f-string has a separator", floor=2)
+    m = ix.module("mypy.stubgen")
+    n = 0
+    for f in list(m.functions.values()) + [mm for c in m.classes.values() for mm in c.methods.values()]:
+        unary = any("UnaryExpr" in norm(a.annotation) for a in f.node.args.args + f.node.args.posonlyargs if a.annotation is not None) or any(isinstance(c, ast.Call) and norm(c.func) == "isinstance" and len(c.args) == 2 and "UnaryExpr" in norm(c.args[1]) for c in ast.walk(f.node))
+        if not unary:
+            continue
+        for js in ast.walk(f.node):
+            if not isinstance(js, ast.JoinedStr):
+                continue
+            vals = js.values
+            for i, v in enumerate(vals[:-1]):
+                if isinstance(v, ast.FormattedValue) and isinstance(vals[i + 1], ast.FormattedValue):
+                    e = v.value
+                    is_raw_op = isinstance(e, ast.Attribute) and e.attr == "op"
+                    is_local_op = isinstance(e, ast.Name) and e.id == "op"
+                    if not (is_raw_op or is_local_op):
+                        continue
+                    n += 1
+                    key = f"{f.qualname}: the operator in `{norm(js)[:50]}` is separated from its operand when it is a word"
+                    if is_local_op and any(isinstance(a, ast.Assign) and norm(a.targets[0]) == "op" and "not " in norm(a.value) for a in ast.walk(f.node)):
+                        r5.ok(key, f.loc(js))
+                    else:
+                        r5.violation(key, f.loc(js), f"`{norm(e)}` is interpolated directly in front of the operand: for the operator `not` the text is `not1` / `notx`, which the stub's reader parses as a name")
+    if n < 2:
+        raise AnalysisError(f"stubgen: {n} unary-operator interpolations found (expected AliasPrinter.visit_unary_expr and get_str_default_of_node)")
